@@ -376,8 +376,35 @@ func runC08(c *core.Ctx) {
 				k.Do("switch-c")
 			}
 		}
+		if w.Hist%9 == 4 {
+			// a commit whose snapshot is empty (everything removed), with ordinary commits before and after it
+			if tr := k.tracked(); len(tr) > 0 {
+				k.goit(append([]string{"rm"}, tr...)...)
+				k.goit("commit", "-m", "emptied")
+				w.Write(k.freshPath(), k.content())
+				w.Write(k.freshPath(), k.content())
+				k.Do("commit-all")
+				c.Count("C08.histories-with-empty-snapshot")
+			}
+		}
+		var big []string
+		if w.Hist%10 == 7 {
+			// scale: snapshots of 33..150 files (not a multiple of any worker count), most of them changed before the reset
+			big = k.Populate(33 + k.R.IntN(118))
+			k.Do("commit-all")
+			w.Write(k.freshPath(), k.content())
+			k.Do("commit-all")
+		}
 		steps := c.Pick(18, 24)
 		for i := 0; i < steps; i++ {
+			if big != nil && i%6 == 1 {
+				k.PerturbMany(big)
+				if k.chance(50) {
+					k.goit("add", ".")
+				}
+				k.resetWithReflog(22)
+				continue
+			}
 			if k.chance(35) {
 				// perturb the working tree, then reset
 				for j := 0; j < k.R.IntN(4); j++ {
